@@ -462,6 +462,83 @@ pub fn run(thorough: bool) -> Report {
         }
     }
 
+    // (3b) a program that never ends is also stopped at its INPUT prompt: a break requested while it
+    // awaits a reply hands control back like one between two statements; and a chain of subroutines
+    // whose callers continue with `: RETURN` unwinds one RETURN per call (lockstep with the reference)
+    {
+        for (name, lines) in [
+            ("INPUT loop", vec!["10 INPUT A$", "20 GOTO 10"]),
+            ("INPUT under THEN in a loop", vec!["10 FOR I = 1 TO 9: IF I THEN INPUT A(I) ELSE PRINT 0", "20 NEXT I: GOTO 10"]),
+        ] {
+            for k in 1..=8usize {
+                let mut s = Sess::new();
+                let mut hist = vec![];
+                for l in &lines {
+                    let e = Ev::Line(l.to_string());
+                    let _ = s.apply(&e);
+                    hist.push(e);
+                }
+                let mut ev = Ev::Line("RUN".into());
+                let mut prompts = 0usize;
+                let mut problem: Option<String> = None;
+                for _ in 0..200 {
+                    let r = s.apply(&ev);
+                    hist.push(ev.clone());
+                    if r != CallResult::Ok {
+                        problem = Some(format!("{:?} gave {:?}", ev, r));
+                        break;
+                    }
+                    match s.state() {
+                        InterpreterState::Running => ev = Ev::Cont,
+                        InterpreterState::AwaitingInput => {
+                            prompts += 1;
+                            if prompts == k {
+                                let line = s.it.verif_snapshot().location_line;
+                                s.recs.clear();
+                                let r = s.apply(&Ev::Break);
+                                hist.push(Ev::Break);
+                                let breaks: Vec<&Rec> = s.recs.iter().filter(|r| matches!(r, Rec::Break(_))).collect();
+                                if r != CallResult::Ok || s.state() != InterpreterState::Idle || breaks.len() != 1 || *breaks[0] != Rec::Break(line) {
+                                    problem = Some(format!("break at prompt {} gave {:?}, state {:?}, records {:?}, current line {:?}", k, r, s.state(), s.recs, line));
+                                }
+                                break;
+                            }
+                            ev = Ev::Input("5".into());
+                        }
+                        st => {
+                            problem = Some(format!("state {:?} in a program that never ends", st));
+                            break;
+                        }
+                    }
+                }
+                handback += 1;
+                if let Some(p) = problem {
+                    rep.add(Violation { signature: format!("break at an INPUT prompt did not hand control back [{}]", name), detail: p, case: case_history(&hist, false, false) });
+                    break;
+                }
+            }
+        }
+        // tail-position calls, three deep and thirty deep
+        for depth in [3u64, 30] {
+            let mut prog = ProgramAst::new();
+            prog.insert(10, vec![Stmt::Gosub(100), Stmt::Print(vec![PItem::E(st("b"))])]);
+            prog.insert(20, vec![Stmt::End]);
+            for d in 0..depth {
+                let n = 100 + d * 10;
+                let mut body = vec![Stmt::Print(vec![PItem::E(num(d as f64)), PItem::Semi])];
+                if d + 1 < depth {
+                    body.push(Stmt::Gosub(n + 10));
+                }
+                body.push(Stmt::Return);
+                prog.insert(n, body);
+            }
+            let lines = render_program(&prog);
+            let mut acc = Acc::default();
+            instrumented(&lines, &[], Some(&prog), false, &mut acc, "chain of tail-position subroutine calls");
+            merge(&total, acc);
+        }
+    }
+
     // (4) a call always hands control back, however long the line: statements chained through
     // THEN and ELSE clauses, at every depth of the grid, each in a child process of its own (a call
     // that exhausts the native stack never returns)
